@@ -5,6 +5,7 @@ import (
 	"fmt"
 	"io"
 	"log/slog"
+	"math"
 	"net/http"
 	"strconv"
 	"strings"
@@ -191,7 +192,10 @@ func parseRangeHeader(rangeHeader string) ([]storage.ByteRange, error) {
 			// Normal range: convert inclusive end to exclusive end
 			var exclusiveEnd *int64
 			if end != nil {
-				excEnd := *end + 1
+				excEnd := *end
+				if excEnd < math.MaxInt64 {
+					excEnd++
+				}
 				exclusiveEnd = &excEnd
 			}
 			ranges = append(ranges, storage.ByteRange{Start: start, End: exclusiveEnd})
